@@ -1353,6 +1353,11 @@ func (ex *Exec) loopHead(fr *Frame, li *loopInfo, cur *State) *State {
 	} else {
 		ex.havocLoopKeys(fr, li, cur, ns, keys, regs)
 	}
+	if fr.ct != nil && fr == ex.rootFrame {
+		// memory the contract asks this loop to forget (replaces an unwieldy bulk-operation term by a fresh array
+		// that the loop invariants describe; forgetting is always sound)
+		ex.havocKeys(ns, fr.ct.LoopForget[li.ord])
+	}
 	for _, a := range regs {
 		T := a.Type().(*types.Pointer).Elem()
 		ns.vars[a] = ex.freshVal("lv."+a.Comment, T)
@@ -1699,6 +1704,9 @@ func solveOne(ex *Exec, o *Obligation, cfg *solveCfg) {
 	var best SolverResult
 	var all []SolverResult
 	var r SolverResult
+	noqText := ""
+	noqCh := make(chan SolverResult, 1)
+	noqFile := ""
 	if o.Cover {
 		// vacuity guard: "unsat" on the relevance-pruned query is definite (fewer assumptions);
 		// "sat" there shows that the assumptions the path condition depends on are consistent.
@@ -1737,10 +1745,31 @@ func solveOne(ex *Exec, o *Obligation, cfg *solveCfg) {
 			cmds = append(cmds, c.Z3)
 		}
 		goal := "(assert " + and(o.PC, not(o.Cond)) + ")"
-		ptxt := pruneQuery(ex.preamble, cmds, goal, 1) + goal + "\n(check-sat)\n"
+		pbody := pruneQuery(ex.preamble, cmds, goal, 1)
+		ptxt := pbody + goal + "\n(check-sat)\n"
+		if strings.Contains(pbody, "(forall ") || strings.Contains(pbody, "(exists ") {
+			var sb strings.Builder
+			for _, ln := range strings.Split(pbody, "\n") {
+				if strings.HasPrefix(strings.TrimSpace(ln), "(assert ") && (strings.Contains(ln, "(forall ") || strings.Contains(ln, "(exists ")) {
+					continue
+				}
+				sb.WriteString(ln)
+				sb.WriteByte('\n')
+			}
+			noqText = sb.String() + goal + "\n(check-sat)\n"
+		}
 		queryMu.Unlock()
 		pfile := base + ".pruned.smt2"
 		_ = writeFileMkdir(pfile, []byte(ptxt))
+		if noqText != "" {
+			// the ground variant runs from the start, next to the other attempts
+			noqFile = base + ".noq.smt2"
+			_ = writeFileMkdir(noqFile, []byte(noqText))
+			go func() {
+				nr, _ := raceSolvers(noqFile, "", cfg.timeout, "z3")
+				noqCh <- nr
+			}()
+		}
 		pr, pall := raceSolvers(pfile, "", cfg.first, "z3")
 		all = append(all, pall...)
 		if pr.Status == "unsat" {
@@ -1775,9 +1804,46 @@ func solveOne(ex *Exec, o *Obligation, cfg *solveCfg) {
 	all = append(all, rall...)
 	best = r
 	if r.Status != "sat" && r.Status != "unsat" {
-		b2, a2 := raceSolvers(z3file, cvcfile, cfg.timeout, "")
+		// next to the full query: the pruned query without its quantified assumptions (they can keep the
+		// instantiation engines busy on goals that are ground bit-vector facts); fewer assumptions, so only
+		// "unsat" counts
+		fullCh := make(chan struct{}, 1)
+		var b2 SolverResult
+		var a2 []SolverResult
+		go func() {
+			b2, a2 = raceSolvers(z3file, cvcfile, cfg.timeout, "")
+			fullCh <- struct{}{}
+		}()
+		noqDone := noqFile == ""
+		fullDone := false
+		for !fullDone {
+			select {
+			case <-fullCh:
+				fullDone = true
+			case nr := <-noqCh:
+				noqDone = true
+				if nr.Status == "unsat" {
+					cfg.stats.add([]SolverResult{nr}, nr)
+					o.Solver = nr.Solver + " (pruned query, ground assumptions)"
+					o.Seconds = time.Since(t0).Seconds()
+					o.Status = "proved"
+					o.SMTFile = noqFile
+					return
+				}
+			}
+		}
 		all = append(all, a2...)
 		best = b2
+		if best.Status != "sat" && best.Status != "unsat" && !noqDone {
+			if nr := <-noqCh; nr.Status == "unsat" {
+				cfg.stats.add([]SolverResult{nr}, nr)
+				o.Solver = nr.Solver + " (pruned query, ground assumptions)"
+				o.Seconds = time.Since(t0).Seconds()
+				o.Status = "proved"
+				o.SMTFile = noqFile
+				return
+			}
+		}
 	} else if cfg.agree {
 		// cross-check with the other back ends
 		for _, sb := range solverBins[1:] {
